@@ -5,7 +5,7 @@ CONSTANTS
   Level = 2
   ExtraBases <- ExtraGen
 VIEW view
-PROPERTIES HeaderChecksOK RoundTripOK IdempotentOK ReproOK DeviationOK
+PROPERTIES HeaderChecksOK RoundTripOK IdempotentOK ReproOK DeviationOK WrapRejected
 CONSTRAINT InitOut
 ACTION_CONSTRAINT Edge
 CHECK_DEADLOCK FALSE
